@@ -1,8 +1,237 @@
-"""leaf specs of property C13: the `- nanmin (+ 0.01)` shift that ends the correlation-type pooling
-in both `pool_rdm` copies (the constant differs between the copies; the model's pooled RDM is
-shifted by the generated definitions)."""
+"""leaf specs of property C13.
+
+Native py2lean leaves (translated straight from /repo's text)
+  poolShiftCorr, poolShiftCorrCov, infShiftCorr, infShiftCorrCov
+      the `- nanmin (+ 0.01)` shift that ends the correlation-type pooling in both `pool_rdm` copies (the
+      constant differs between the copies; the model's pooled RDM is shifted by the generated definitions).
+
+Derived leaves (round 3).  The decisions of the input parsers and the arithmetic of `_mean` / `_rescale` are
+*array* statements outside py2lean's scalar subset.  This module re-reads the current source text (Python
+`ast`) on every run, checks that the statements around the decision still have the shape the model
+transcribes (fail closed), derives the scalar / Boolean-as-0/1 expression and writes it as a tiny Python
+function into `harness/leaves/_C13_derived.py`; py2lean then translates those functions as usual.
+
+  cmpShapeReject, utlShapeReject   `if not vector1.shape[1] == vector2.shape[1]: raise ValueError(… equal shape)`
+                                   of `rdm/compare.py:_parse_input_rdms` and `util/rdm_utils.py:_parse_nan_vectors`
+                                   -> 1 (raise) / 0 as a function of the two widths
+  cmpNanReject, utlNanReject       `if not (np.all(m1 == m1[0]) and np.all(m2 == m1[0])): raise ValueError(… nan
+                                   positions)` -> 1 / 0 as a function of the two facts "every row of stack 1
+                                   (2) has the mask of the first RDM of stack 1" (1 = true).  The derivation
+                                   requires *these* two `np.all(...)` texts, the mask definitions
+                                   `~np.isnan(vector…)`, the boolean indexing `vector…[mask…].reshape(n, -1)`
+                                   and the returned mask (`mask[0]` / `mask`) to be present unchanged.
+  meanRatio                        `_mean`: `return weighted_sum / np.nansum(weights, axis=0)`; requires the
+                                   statements `weights = np.array(weights, dtype=float)` (a fresh array: calls
+                                   are independent), `weights[np.isnan(vectors)] = np.nan`,
+                                   `weighted_sum = np.nansum(vectors * weights, axis=0)` unchanged.
+  evidenceWeight                   `_rescale`: `weights = (dissim ** 2).clip(0.2 ** 2)` -> max(d ** 2, 0.2 ** 2)
+  setsizeWeight                    `_rescale`: `np.tile(1 / setsize, [n_conds, 1]).T` -> 1 / setsize, with
+                                   `setsize = np.isfinite(dissim).sum(axis=1)` required unchanged.
+An unexpected shape of an anchor gives a function calling `__underivable__`, which py2lean reports as an
+untranslatable leaf = broken obligation (then the failing-input search runs).
+"""
+import ast
+import os
+
+SRC = os.environ.get('RSA_REPO_SRC', '/repo/src/rsatoolbox')
+HERE = os.path.dirname(os.path.abspath(__file__))
+DERIVED = os.path.join(HERE, '_C13_derived.py')
+
+
+class Underivable(Exception):
+    pass
+
+
+def _func(path, name):
+    tree = ast.parse(open(os.path.join(SRC, path)).read())
+    for node in ast.walk(tree):
+        if isinstance(node, ast.FunctionDef) and node.name == name:
+            return node
+    raise Underivable(f'{path}: function {name} not found')
+
+
+def _stmts(fn):
+    """source text of every statement of the function (nested ones too), docstrings dropped"""
+    out = []
+    for node in ast.walk(fn):
+        if isinstance(node, ast.stmt) and not isinstance(node, (ast.FunctionDef, ast.If, ast.While, ast.For)):
+            if isinstance(node, ast.Expr) and isinstance(node.value, ast.Constant):
+                continue
+            out.append(ast.unparse(node))
+    return out
+
+
+def _require(fn, texts):
+    have = _stmts(fn)
+    for t in texts:
+        want = ast.unparse(ast.parse(t).body[0])
+        if have.count(want) != 1:
+            raise Underivable(f'statement `{want}` occurs {have.count(want)} times in {fn.name} (expected once)')
+
+
+def _raising_if(fn, needle):
+    """the `if` statement whose body is a single `raise ValueError(<message containing needle>)`"""
+    hits = []
+    for node in ast.walk(fn):
+        if isinstance(node, ast.If) and len(node.body) == 1 and isinstance(node.body[0], ast.Raise) \
+                and not node.orelse and needle in ast.unparse(node.body[0]) \
+                and ast.unparse(node.body[0]).startswith('raise ValueError('):
+            hits.append(node)
+    if len(hits) != 1:
+        raise Underivable(f'{fn.name}: {len(hits)} `if …: raise ValueError(…{needle}…)` statements (expected one)')
+    return hits[0]
+
+
+class _Subst(ast.NodeTransformer):
+    """replace whole sub-expressions (matched by their unparsed text) by other expressions"""
+
+    def __init__(self, subs):
+        self.subs = subs
+        self.used = set()
+
+    def visit(self, node):
+        if isinstance(node, ast.expr):
+            t = ast.unparse(node)
+            if t in self.subs:
+                self.used.add(t)
+                return ast.parse(self.subs[t], mode='eval').body
+        return self.generic_visit(node)
+
+
+def _substituted(expr, subs):
+    tr = _Subst(subs)
+    new = tr.visit(ast.parse(ast.unparse(expr), mode='eval').body)
+    missing = [k for k in subs if k not in tr.used]
+    if missing:
+        raise Underivable(f'sub-expression(s) {missing} not found in `{ast.unparse(expr)}`')
+    text = ast.unparse(ast.fix_missing_locations(new))
+    # nothing of the original arrays may be left
+    names = {n.id for n in ast.walk(ast.parse(text, mode='eval')) if isinstance(n, ast.Name)}
+    return text, names
+
+
+def _decision(path, fname, needle, subs, params, required):
+    fn = _func(path, fname)
+    _require(fn, required)
+    node = _raising_if(fn, needle)
+    text, names = _substituted(node.test, subs)
+    extra = names - set(params)
+    if extra:
+        raise Underivable(f'test `{ast.unparse(node.test)}` mentions {sorted(extra)} besides the expected operands')
+    return text
+
+
+def _derive():
+    out = ['# DERIVED by harness/leaves/C13.py from the source tree under check - do not edit', '']
+
+    def emit(name, params, body_fn, decision=False):
+        try:
+            body = body_fn()
+        except Exception as exc:  # noqa: BLE001  (fail closed: any surprise = underivable)
+            body = None
+            why = str(exc)
+        out.append(f'def {name}({", ".join(params)}):')
+        if body is None:
+            out.append(f'    return __underivable__({why!r})')
+        elif decision:
+            out.append(f'    if {body}:')
+            out.append('        return 1')
+            out.append('    return 0')
+        else:
+            out.append(f'    return {body}')
+        out.append('')
+
+    # ---- rdm/compare.py:_parse_input_rdms
+    cmp_req = ['nan_idx = ~np.isnan(vector1)', 'nan_idx2 = ~np.isnan(vector2)',
+               'vector1_no_nan = vector1[nan_idx].reshape(vector1.shape[0], -1)',
+               'vector2_no_nan = vector2[nan_idx2].reshape(vector2.shape[0], -1)',
+               'return (vector1_no_nan, vector2_no_nan, nan_idx[0])']
+    emit('cmp_shape_reject', ['w1', 'w2'],
+         lambda: _decision('rdm/compare.py', '_parse_input_rdms', 'equal shape',
+                           {'vector1.shape[1]': 'w1', 'vector2.shape[1]': 'w2'}, ['w1', 'w2'], []), True)
+    emit('cmp_nan_reject', ['all1', 'all2'],
+         lambda: _decision('rdm/compare.py', '_parse_input_rdms', 'nan positions',
+                           {'np.all(nan_idx == nan_idx[0])': 'all1 == 1',
+                            'np.all(nan_idx2 == nan_idx[0])': 'all2 == 1'}, ['all1', 'all2'], cmp_req), True)
+    # ---- util/rdm_utils.py:_parse_nan_vectors
+    utl_req = ['not_nan_mask = ~np.isnan(vector1)', 'not_nan_mask2 = ~np.isnan(vector2)',
+               'vector1_no_nan = vector1[not_nan_mask].reshape(vector1.shape[0], -1)',
+               'vector2_no_nan = vector2[not_nan_mask2].reshape(vector2.shape[0], -1)',
+               'return (vector1_no_nan, vector2_no_nan, not_nan_mask)']
+    emit('utl_shape_reject', ['w1', 'w2'],
+         lambda: _decision('util/rdm_utils.py', '_parse_nan_vectors', 'equal shape',
+                           {'vector1.shape[1]': 'w1', 'vector2.shape[1]': 'w2'}, ['w1', 'w2'], []), True)
+    emit('utl_nan_reject', ['all1', 'all2'],
+         lambda: _decision('util/rdm_utils.py', '_parse_nan_vectors', 'nan positions',
+                           {'np.all(not_nan_mask == not_nan_mask[0])': 'all1 == 1',
+                            'np.all(not_nan_mask2 == not_nan_mask[0])': 'all2 == 1'}, ['all1', 'all2'], utl_req),
+         True)
+
+    # ---- rdm/combine.py:_mean
+    def mean_ratio():
+        fn = _func('rdm/combine.py', '_mean')
+        _require(fn, ['weights = np.ones(vectors.shape)', 'weights = np.array(weights, dtype=float)',
+                      'weights[np.isnan(vectors)] = np.nan',
+                      'weighted_sum = np.nansum(vectors * weights, axis=0)'])
+        rets = [n for n in ast.walk(fn) if isinstance(n, ast.Return)]
+        if len(rets) != 1:
+            raise Underivable(f'_mean has {len(rets)} return statements')
+        text, names = _substituted(rets[0].value, {'np.nansum(weights, axis=0)': 'wsum'})
+        if names != {'weighted_sum', 'wsum'}:
+            raise Underivable(f'return expression `{text}` is not a function of the two sums')
+        return text
+    emit('mean_ratio', ['weighted_sum', 'wsum'], mean_ratio)
+
+    # ---- rdm/combine.py:_rescale
+    def weights_assign(k):
+        fn = _func('rdm/combine.py', '_rescale')
+        hits = [n for n in ast.walk(fn) if isinstance(n, ast.Assign) and len(n.targets) == 1
+                and ast.unparse(n.targets[0]) == 'weights']
+        hits.sort(key=lambda n: n.lineno)
+        if len(hits) != 3:
+            raise Underivable(f'_rescale assigns `weights` {len(hits)} times (expected 3)')
+        _require(fn, ['weights[np.isnan(dissim)] = np.nan'])
+        return fn, hits[k].value
+
+    def evidence():
+        _, v = weights_assign(0)
+        if not (isinstance(v, ast.Call) and isinstance(v.func, ast.Attribute) and v.func.attr == 'clip'
+                and len(v.args) == 1 and not v.keywords):
+            raise Underivable(f'evidence weights `{ast.unparse(v)}` are not `<expr>.clip(<lower>)`')
+        text, names = _substituted(v.func.value, {'dissim': 'd'})
+        lo = ast.unparse(v.args[0])
+        if names != {'d'} or any(isinstance(n, ast.Name) for n in ast.walk(v.args[0])):
+            raise Underivable(f'evidence weights `{ast.unparse(v)}`: unexpected operands')
+        return f'max({text}, {lo})'
+    emit('evidence_weight', ['d'], evidence)
+
+    def setsize():
+        fn, v = weights_assign(1)
+        _require(fn, ['setsize = np.isfinite(dissim).sum(axis=1)'])
+        t = ast.unparse(v)
+        pre, post = 'np.tile(', ', [n_conds, 1]).T'
+        if not (t.startswith(pre) and t.endswith(post)):
+            raise Underivable(f'setsize weights `{t}` are not `np.tile(<expr>, [n_conds, 1]).T`')
+        inner = ast.parse(t[len(pre):-len(post)], mode='eval').body
+        names = {n.id for n in ast.walk(inner) if isinstance(n, ast.Name)}
+        if names != {'setsize'}:
+            raise Underivable(f'setsize weights `{t}`: unexpected operands')
+        return ast.unparse(inner)
+    emit('setsize_weight', ['setsize'], setsize)
+
+    text = '\n'.join(out)
+    if not (os.path.exists(DERIVED) and open(DERIVED).read() == text):
+        with open(DERIVED + '.tmp', 'w') as f:
+            f.write(text)
+        os.replace(DERIVED + '.tmp', DERIVED)
+
+
+_derive()
+
 _P = {'rdm_vec': 'A', 'mn': 'A'}
 _O = {'np.nanmin(rdm_vec)': 'mn'}
+_N2 = {'w1': 'Nat', 'w2': 'Nat'}
+_B2 = {'all1': 'Nat', 'all2': 'Nat'}
 LEAVES = [
     dict(name='poolShiftCorr', file='util/pooling.py', func='pool_rdm', kind='assign',
          target='rdm_vec', nth=7, count=20, params=dict(_P), opaque=dict(_O), ret='A'),
@@ -12,4 +241,12 @@ LEAVES = [
          target='rdm_vec', nth=8, count=23, params=dict(_P), opaque=dict(_O), ret='A'),
     dict(name='infShiftCorrCov', file='util/inference_util.py', func='pool_rdm', kind='assign',
          target='rdm_vec', nth=14, count=23, params=dict(_P), opaque=dict(_O), ret='A'),
+    dict(name='cmpShapeReject', file=DERIVED, func='cmp_shape_reject', kind='func', params=dict(_N2), ret='Nat'),
+    dict(name='cmpNanReject', file=DERIVED, func='cmp_nan_reject', kind='func', params=dict(_B2), ret='Nat'),
+    dict(name='utlShapeReject', file=DERIVED, func='utl_shape_reject', kind='func', params=dict(_N2), ret='Nat'),
+    dict(name='utlNanReject', file=DERIVED, func='utl_nan_reject', kind='func', params=dict(_B2), ret='Nat'),
+    dict(name='meanRatio', file=DERIVED, func='mean_ratio', kind='func',
+         params={'weighted_sum': 'A', 'wsum': 'A'}, ret='A'),
+    dict(name='evidenceWeight', file=DERIVED, func='evidence_weight', kind='func', params={'d': 'A'}, ret='A'),
+    dict(name='setsizeWeight', file=DERIVED, func='setsize_weight', kind='func', params={'setsize': 'A'}, ret='A'),
 ]
